@@ -392,6 +392,8 @@ def run(P, R, tier):
     guisibling_rule(P, R)
     let_rule(P, R)
     findline_rule(P, R)
+    clearvar_rule(P, R)
+    savescope_rule(P, R)
     onrecord_rule(P, R)
     R.undecided += ["(e) arithmetic and string results for all programs", "(f) malformed programs produce a BASIC error, never a wrong value or a hang"]
     ens = [e for e in P.enums.values() if e["q"].endswith("BASIC_TOKEN")]
@@ -693,3 +695,86 @@ def run(P, R, tier):
         elif t not in tested:
             R.violation("C17.tokens", "syntactic:" + t, "token %s is listed as purely syntactic but no statement parser tests or requires it" % t,
                         file=lf["file"], line=lf["line"], function="PBasic")
+
+
+def clearvar_rule(P, R):
+    """"The same program evaluates identically ... in RATES, USER_PUNCH, USER_PRINT and CALCULATE_VALUES": a compiled program is run many
+    times (every row, every rate call); cmdrun and the clean-up of basic_run reset the variable store through clearvars -> clearvar.
+    Every path through clearvar must give the variable its initial value - 0 for a numeric variable (rv), NULL for a string (sv) - and
+    re-point its value pointer (val / sval): a path that skips the value lets the next run start with what the previous one left."""
+    RULE = "C17.clearvar"
+    R.rule(RULE, "PBasic::clearvar: every path resets the value (rv = 0 / sv = NULL) and the value pointer (val / sval) of the variable", minimum=2)
+    f = P.one("PBasic::clearvar")
+    cfg = T.CFG(f)
+
+    def writes_field(n, names, need_zero):
+        if not T.is_node(n):
+            return False
+        for t, how, line, w in T.writes(n):
+            root, steps = T.access_path(t)
+            if how == "=" and steps and steps[-1][0] == "f" and steps[-1][1].split("::")[-1] in names:
+                rhs = T.strip_casts(w[4])
+                if not need_zero or T.lit_value(rhs) == 0 or (T.is_node(rhs) and rhs[0] == "Lit" and str(rhs[3]) in ("0", "0.0") ):
+                    return True
+        return False
+    for inst, names, need_zero in (("value", ("rv", "sv"), True), ("pointer", ("val", "sval"), False)):
+        seen, st = {cfg.entry}, [cfg.entry]
+        while st:
+            x = st.pop()
+            if writes_field(cfg.nodes[x]["n"], names, need_zero):
+                continue
+            for y in cfg.nodes[x]["succ"]:
+                if y not in seen:
+                    seen.add(y)
+                    st.append(y)
+        if cfg.exit in seen:
+            R.violation(RULE, inst, "a path through clearvar leaves the %s of the variable as the previous run left it (%s not assigned): a program that reads a variable before "
+                        "assigning it gives run-dependent results (second row, second rate call)" % (inst, " / ".join(names)), file=f["file"], line=f["line"], function=f["q"])
+        else:
+            R.ok(RULE, inst, "%s assigned on every path" % " / ".join(names))
+    callers = [g["q"] for g in P.functions.values() if any(T.callee_q(c) == "PBasic::clearvars" for c in T.calls(g["body"]))]
+    if not {"PBasic::cmdrun", "PBasic::basic_run"} <= set(callers):
+        R.violation(RULE, "callers", "clearvars is no longer called by both cmdrun and basic_run (callers: %s)" % ", ".join(sorted(callers)), file=f["file"], line=f["line"], function=f["q"])
+
+
+def savescope_rule(P, R):
+    """SAVE stores into Phreeqc::rate_moles; the host that ran the program reads it afterwards.  (nan) every host that reads rate_moles
+    after basic_run assigns NAN before the run, so that a program without SAVE is detected (siblings: calc_kinetic_reaction,
+    calculate_values, punch_calculate_values, get_calculate_value).  (nest) a host that can itself be called from a running program
+    (reachable from PBasic::basic_run: CALC_VALUE -> get_calculate_value) copies the caller's value to a local before it resets the
+    variable and assigns it back after it has read its own result - otherwise `SAVE x` followed by CALC_VALUE(...) in one program
+    returns the nested program's value to the outer host."""
+    from ..callgraph import CallGraph
+    RULE = "C17.savescope"
+    R.rule(RULE, "hosts of BASIC programs reset rate_moles to NAN before the run; nested hosts keep and restore the caller's SAVE value", minimum=5)
+    cg = CallGraph(P)
+    reach = cg.reach_from([k for k, g in P.functions.items() if g["q"] == "PBasic::basic_run"])
+    n = 0
+    for k, g in sorted(P.functions.items(), key=lambda kv: kv[1]["q"]):
+        runs = [c[1] for c in T.calls(g["body"]) if T.callee_q(c) in ("PBasic::basic_run", "Phreeqc::basic_run")]
+        reads = [x[1] for x in T.walk(g["body"]) if x[0] == "Member" and x[2] == "Phreeqc::rate_moles"]
+        if not runs or not any(r > min(runs) for r in reads):
+            continue
+        n += 1
+        name = g["q"].split("::")[-1]
+        wr = [(how, line, w) for t, how, line, w in T.writes(g["body"]) if T.access_path(t)[1] == [("f", "Phreeqc::rate_moles")] and how == "="]
+        for run_line in runs:
+            nan_before = [line for how, line, w in wr if line < run_line and any(
+                y[0] == "Call" and (T.callee_q(y) or "").startswith("__builtin_nan") for y in T.walk(w[4]))]
+            inst = "%s:nan@%d" % (name, run_line)
+            if nan_before:
+                R.ok(RULE, inst, "rate_moles = NAN at line %d before the run" % nan_before[-1])
+            else:
+                R.violation(RULE, inst, "%s reads rate_moles after basic_run (line %d) without resetting it to NAN before: a program without SAVE returns whatever an earlier "
+                            "program stored" % (g["q"], run_line), file=g["file"], line=run_line, function=g["q"])
+        if k in reach:
+            inst = name + ":nest"
+            first_run = min(runs)
+            restore = [line for how, line, w in wr if line > first_run and T.is_node(T.strip_casts(w[4])) and T.strip_casts(w[4])[0] == "Ref" and T.strip_casts(w[4])[2] == "local"]
+            if restore:
+                R.ok(RULE, inst, "caller's value assigned back from a local at line %d" % restore[-1])
+            else:
+                R.violation(RULE, inst, "%s can be called from a running BASIC program (CALC_VALUE) and stores its own program's SAVE in rate_moles without putting the caller's value "
+                            "back: `SAVE x` followed by CALC_VALUE in one program hands the nested value to the outer host" % g["q"], file=g["file"], line=first_run, function=g["q"])
+    if n < 4:
+        R.anchor_missing(RULE, "only %d hosts read rate_moles after basic_run" % n)
